@@ -281,7 +281,7 @@ def run(ctx):
 
 
 def search(ctx):
-    pass
+    ctx.widen(run)
 
 
 def replay(ctx, rp):
